@@ -376,11 +376,16 @@ class Registry:
         self.opaque_super: dict[str, tuple] = {}
         self.spec_funcs: dict[str, object] = {}
         self.nominal_methods: dict[str, dict] = {}  # external class qualname -> {method: python model(it, obj, args, kwargs)}
+        # values of module-level names that depend on the installation (package version strings, ...): "module:name" -> value
+        self.module_values: dict[str, object] = {"schemathesis.core.version:SCHEMATHESIS_VERSION": "dev"}
         self.aliases: dict[str, str] = {}  # clause-level name -> pure contract it denotes
 
-    def contract(self, target, **kw):
+    def contract(self, target, variant=None, **kw):
+        """Register a contract. `variant` gives a second contract on the same function (different input scope); variants are
+        verified but never used to abstract call sites."""
         c = Contract(target, **kw)
-        self.contracts[target] = c
+        c.variant = variant
+        self.contracts[target if variant is None else f"{target}#{variant}"] = c
         return c
 
     def lemma(self, name, **kw):
@@ -442,3 +447,14 @@ def fresh_opaque(it, sort, cls=None):
     from .values import Opaque, ref_sort
 
     return Opaque(sort, _z3.Const(it.path.fresh(f"new:{sort}"), ref_sort(sort)), cls or sort)
+
+
+def live_finding(fid):
+    """True while the known finding `fid` (known_findings.json, status open) still reproduces natively on the tree under test.
+
+    Contract modules use it to exclude exactly the finding's region from an obligation (DESIGN 1.9): outside the region the obligation must
+    still be discharged; when the witness stops reproducing the exclusion disappears and the full obligation is checked again.
+    """
+    import os
+
+    return fid in os.environ.get("PYVC_LIVE_FINDINGS", "").split(",")
